@@ -284,6 +284,355 @@ def native_remove(name, conc, notes):
             "detail": f"real FMMULock.remove: bits changed {changed} (own number {mine}); errors {err}"}
 
 
+# --------------------------------------------------------------------------
+# Native replay of the start/stop protocol: every participant is a real
+# ParallelEtherCat whose `run` context manager executes in its own thread (own
+# event loop); file system, bpf objects and the network interface are one
+# simulated world, and each call into it is a scheduling point.
+class Stepper:
+    """token scheduler: a participant runs only when the driver steps it"""
+
+    def __init__(self):
+        self.turn, self.pending, self.done = {}, {}, {}
+        self.back = threading.Semaphore(0)
+        self.trace = []
+
+    def register(self, pid):
+        self.turn[pid] = threading.Semaphore(0)
+        self.pending[pid] = None
+        self.done[pid] = False
+
+    def point(self, pid, what):
+        self.pending[pid] = what
+        self.back.release()
+        self.turn[pid].acquire()
+        self.trace.append(f"{pid}:{what}")
+
+    def step(self, pid):
+        self.turn[pid].release()
+        self.back.acquire()
+
+    def until(self, pid, label, limit=200):
+        """let pid run until its next action is `label` (not executed yet)"""
+        n = 0
+        while not self.done[pid] and self.pending[pid] != label:
+            self.step(pid)
+            n += 1
+            if n > limit:
+                raise RuntimeError(f"participant {pid} never reaches {label}")
+
+    def finish(self, pid):
+        self.until(pid, "<never>")
+
+
+class SimWorld:
+    """lock directory, pin file, attached dispatcher"""
+
+    def __init__(self, st):
+        self.st = st
+        self.local = threading.local()
+        self.dirs = {"/run/lock": {}}          # directory -> {name: content}
+        self.pin = None                        # pinned map id
+        self.attached = None                   # map id the attached dispatcher uses
+        self.next_map = 100
+        self.tmp = 0
+        self.shared_removed = []
+        self.running = {}                      # pid -> the participant (while inside its with-block)
+        self.violations = []
+
+    @property
+    def pid(self):
+        return self.local.pid
+
+    def p(self, what):
+        self.st.point(self.pid, what)
+
+    # os / shutil / tempfile -------------------------------------------------
+    def makedirs(self, *a, **k):
+        pass
+
+    def getpid(self):
+        return 1000 + ord(self.pid)
+
+    def mkdtemp(self, dir=None):
+        self.p("mkdtemp")
+        self.tmp += 1
+        d = f"{dir}/tmp{self.tmp}"
+        self.dirs[d] = {}
+        return d
+
+    def exists(self, path):
+        d, name = path.rsplit("/", 1)
+        self.p(f"exists({name})")
+        return d in self.dirs and name in self.dirs[d]
+
+    def open(self, path, mode):
+        d, name = path.rsplit("/", 1)
+        self.p(f"create({name})" if d.endswith(".lock") else "create(private)")
+        assert mode in ("x", "w")
+        if d not in self.dirs:
+            raise FileNotFoundError(path)
+        if name in self.dirs[d] and mode == "x":
+            raise FileExistsError(path)
+        self.dirs[d][name] = self.pid
+        import io
+        return io.StringIO()
+
+    def rename(self, src, dst):
+        self.p("rename")
+        if dst in self.dirs and self.dirs[dst]:
+            raise OSError(39, "Directory not empty")
+        self.dirs[dst] = self.dirs.pop(src)
+
+    def rmtree(self, d):
+        self.p("rmtree")
+        self.dirs.pop(d, None)
+
+    def remove(self, path):
+        if path.endswith("/programs"):
+            self.p("remove(programs)")
+            if self.pin is None:
+                raise FileNotFoundError(path)
+            self.pin = None
+            return
+        d, name = path.rsplit("/", 1)
+        self.p("remove(lockfile)")
+        del self.dirs[d][name]
+
+    def rmdir(self, d):
+        self.p("rmdir")
+        if d not in self.dirs:
+            raise FileNotFoundError(d)
+        if self.dirs[d]:
+            raise OSError(39, "Directory not empty")
+        del self.dirs[d]
+
+    # bpf ----------------------------------------------------------------------
+    def create_map(self, *a):
+        self.next_map += 1
+        return self.next_map
+
+    def obj_get(self, path):
+        self.p("obj_get")
+        if self.pin is None:
+            raise FileNotFoundError(path)
+        return self.pin
+
+    def obj_pin(self, path, fd):
+        self.p("obj_pin")
+        if self.pin is not None:
+            raise FileExistsError(path)
+        self.pin = fd
+
+    async def sleep(self, t):
+        self.p("sleep")
+
+
+def start_stop_scenario(script, pids):
+    """run the real ParallelEtherCat.run of the participants `pids` under the
+    driver `script(st, world)`; returns (world, trace, errors)"""
+    import asyncio
+    import ebpfcat.ebpfcat as EC
+    st = Stepper()
+    world = SimWorld(st)
+
+    class Xdp:
+        def __init__(self):
+            self.programs = None
+
+        async def attach(self, network):
+            world.p("attach")
+            world.attached = self.programs
+
+        async def detach(self, network):
+            world.p("detach")
+            world.attached = None
+
+        def close(self):
+            pass
+
+    class SharedFile:
+        def __init__(self, *a):
+            pass
+
+        def remove(self):
+            world.p("remove(shared lock files)")
+            world.shared_removed.append(world.pid)
+
+    class Named:
+        def __init__(self, **k):
+            self.__dict__.update(k)
+
+    class OsShim:
+        makedirs, getpid, rename, remove, rmdir = (world.makedirs, world.getpid, world.rename, world.remove,
+                                                   world.rmdir)
+        path = Named(exists=world.exists)
+
+    async def connect(self):
+        world.p("connect")
+        self.g_bound = self.ethertype
+    base = EC.FastEtherCat.__mro__[1]
+    saved = {k: getattr(EC, k) for k in ("os", "shutil", "tempfile", "obj_get", "obj_pin", "create_map", "sleep",
+                                         "LockFile", "FMMULock", "EtherXDP")}
+    saved_connect = base.connect
+    had_open = "open" in vars(EC)
+    EC.os, EC.shutil, EC.tempfile = OsShim, Named(rmtree=world.rmtree), Named(mkdtemp=world.mkdtemp)
+    EC.obj_get, EC.obj_pin, EC.create_map, EC.sleep = world.obj_get, world.obj_pin, world.create_map, world.sleep
+    EC.LockFile = EC.FMMULock = SharedFile
+    EC.EtherXDP = Xdp
+    EC.open = world.open
+    base.connect = connect
+    errors, ecs = {}, {}
+
+    def body(pid):
+        world.local.pid = pid
+
+        async def main():
+            ec = object.__new__(EC.ParallelEtherCat)
+            ec.addr = ("sim0", 0x88A4)
+            ec.sync_groups = {}
+            ec.terminal_addr_range = (0, 10)
+            ecs[pid] = ec
+            async with ec.run():
+                world.running[pid] = ec
+                world.p("running")
+                world.p("leave")
+                del world.running[pid]
+        try:
+            st.point(pid, "start")
+            asyncio.run(main())
+        except BaseException as e:      # noqa
+            errors[pid] = e
+            world.running.pop(pid, None)
+        finally:
+            st.done[pid] = True
+            st.back.release()
+    threads = {}
+    try:
+        for p in pids:
+            st.register(p)
+            threads[p] = threading.Thread(target=body, args=(p,), daemon=True)
+            threads[p].start()
+            st.back.acquire()
+
+        def observe(when):
+            inside = {p: ec for p, ec in world.running.items() if st.pending.get(p) == "leave"}
+            ets = [ec.ethertype for ec in inside.values()]
+            if len(set(ets)) != len(ets):
+                world.violations.append(f"{when}: running participants share an ethertype: "
+                                        f"{ {p: hex(ec.ethertype) for p, ec in inside.items()} }")
+            for p, ec in inside.items():
+                if world.attached is None or world.pin != world.attached or ec.programs != world.attached:
+                    world.violations.append(
+                        f"{when}: participant {p} is running with program table {ec.programs}, but the attached "
+                        f"dispatcher uses {world.attached} and the pinned table is {world.pin}")
+        script(st, world, observe)
+        for p in pids:
+            if not st.done[p]:
+                st.finish(p)
+    finally:
+        for k, v in saved.items():
+            setattr(EC, k, v)
+        if not had_open:
+            del EC.open
+        base.connect = saved_connect
+    types = {p: getattr(ec, "ethertype", None) for p, ec in ecs.items()}
+    return world, st.trace, errors, types
+
+
+def leave_race(st, world, observe):
+    """A runs alone and leaves; after A's rmdir, B starts; then A finishes its clean-up"""
+    st.until("A", "leave")
+    st.until("A", "detach")          # A: lock file removed, rmdir done, about to detach
+    st.until("B", "leave")           # B: starts completely (it is the installer now) and runs
+    observe("B has started")
+    st.finish("A")                   # A: detach, remove(programs), remove the shared lock files
+    observe("A has finished leaving")
+
+
+def join_during_install(st, world, observe):
+    """A leaves (lock file removed, directory not yet); X renames over the empty
+    directory and becomes the installer; B joins before X has replaced the pin"""
+    st.until("A", "leave")
+    st.until("A", "rmdir")
+    st.until("X", "remove(programs)")
+    st.until("B", "leave")           # B joins: obj_get returns the table of A's dispatcher
+    st.until("X", "leave")           # X installs its own dispatcher and table
+    observe("X has installed its dispatcher")
+    st.finish("A")
+    observe("A has left")
+
+
+def sequential(st, world, observe):
+    """no overlap of start and stop phases: everything must be fine"""
+    st.until("A", "leave")
+    observe("A runs")
+    st.until("B", "leave")
+    observe("A and B run")
+    st.finish("A")
+    observe("A has left")
+    st.until("X", "leave")
+    observe("B and X run")
+    st.finish("B")
+    observe("B has left")
+    st.finish("X")
+
+
+def native_ethertype(name, conc, notes):
+    """two participants start while a third keeps the lock directory alive;
+    the second runs completely at each point of the first one's start"""
+    found = None
+    for k in range(1, 14):
+        def script(st, world, observe, k=k):
+            st.until("K", "leave")             # K installs and keeps running
+            for _ in range(k):
+                if not st.done["A"] and st.pending["A"] != "leave":
+                    st.step("A")
+            st.until("B", "leave")
+            st.until("A", "leave")
+            observe(f"A preempted after {k} steps, B started meanwhile")
+        script.__doc__ = f"K runs; A starts and is preempted after {k} system calls; B starts; A goes on"
+        # both newcomers draw the same random ethertype first
+        import ebpfcat.ebpfcat as EC
+        saved = EC.randrange
+        seq = iter([0x4000, 0x4000, 0x4001, 0x4002, 0x4003, 0x4004])
+        EC.randrange = lambda a, b: next(seq)
+        try:
+            bad, trace = native_scenario(script, "KAB")
+        finally:
+            EC.randrange = saved
+        bad = [b for b in bad if "ethertype" in b]
+        if bad:
+            found = (k, bad, trace)
+            break
+    if found is None:
+        return {"inputs": {"preemption points tried": 13}, "reproduced": None,
+                "detail": "three real participants (one running, two starting with the same random draws), the "
+                          "second newcomer run at every system call of the first: ethertypes always distinct"}
+    k, bad, trace = found
+    return {"inputs": {"participants": "K (running), A, B; both draw 0x4000 first", "A preempted after": k},
+            "reproduced": True, "detail": f"{bad[0]}; trace {' '.join(trace)}"[:2500]}
+
+
+def native_scenario(script, pids):
+    world, trace, errors, types = start_stop_scenario(script, pids)
+    bad = list(world.violations)
+    for p, e in errors.items():
+        bad.append(f"participant {p} raised {type(e).__name__}: {e}")
+    return bad, trace
+
+
+def witness(script, pids):
+    def w():
+        bad, trace = native_scenario(script, pids)
+        return {"inputs": {"participants": list(pids), "schedule": script.__doc__},
+                "reproduced": bool(bad),
+                "detail": f"real ParallelEtherCat.run of {len(pids)} participants over a simulated file system / "
+                          f"bpf / interface, interleaved at the system calls: {'; '.join(bad[:3])}; trace "
+                          f"{' '.join(trace)}"[:3000]}
+    return w
+
+
 def run(tier, seed):
     from contracts import c23_parallel as S
     rep = R.Report("C23", tier, seed)
@@ -298,7 +647,25 @@ def run(tier, seed):
         api.verify(S.fmmu_init, rep, replay=native_fmmu_init)
         api.verify(S.fmmu_next, rep, replay=native_next)
         api.verify(S.fmmu_remove, rep, replay=native_remove)
-        S.verify_rest(api, rep, tier)
+        api.verify(S.get_ethertype(), rep, replay=native_ethertype)
+        api.verify(S.get_ethertype_private(), rep)
+        S.install_stubs()
+        try:
+            # outside the regions of the two recorded findings: a participant
+            # that fetches the table while nobody installs and that is not the
+            # last one to leave
+            api.verify(S.run_contract(False), rep, replay=lambda n, i, nt: witness(sequential, "ABX")())
+            for region, contract, wit in (
+                    ("ParallelEtherCat.run: the last participant leaves (its rmdir of the lock directory succeeds)",
+                     S.run_contract(True), witness(leave_race, "AB")),
+                    ("ParallelEtherCat.run: a participant joins while another one is installing the dispatcher",
+                     S.run_contract(False, True), witness(join_during_install, "AXB"))):
+                scratch = R.Report("C23", tier, seed)
+                scratch.quiet = True
+                api.verify(contract, scratch, quiet=True)
+                rep.fold_region(scratch, region, wit)
+        finally:
+            S.uninstall_stubs()
     finally:
         S.uninstall()
     return rep.finish(
